@@ -261,7 +261,9 @@ impl ReadCheck {
             "C01" => JudgeOpts { prop: "C01", check_pos: false, mon_prefixes: &[], check_msg: false, only: None, exact_after_seek: false },
             "C02" => JudgeOpts { prop: "C02", check_pos: false, mon_prefixes: &[], check_msg: false, only: None, exact_after_seek: false },
             "C04" => JudgeOpts { prop: "C04", check_pos: false, mon_prefixes: &[], check_msg: false, only: None, exact_after_seek: false },
-            "C06" => JudgeOpts { prop: "C06", check_pos: false, mon_prefixes: &[], check_msg: false, only: None, exact_after_seek: false },
+            // (iterating the records handed out is part of C06: the iterator monitors of C20 run in one
+            // scenario in four, their findings are reported as C06.C20_<rule>)
+            "C06" => JudgeOpts { prop: "C06", check_pos: false, mon_prefixes: &["C20."], check_msg: false, only: None, exact_after_seek: false },
             other => panic!("no judge options for {}", other),
         }
     }
@@ -538,7 +540,8 @@ pub fn gen_read_scn(id: &str, rng: &Rng, tier: Tier) -> ReadScn {
                 ops.push(Op::Drain);
             }
             let label = ["plain", "refusing_policy", "io_faults", "refusing_policy+io_faults"][profile as usize];
-            ReadScn { fmt, input, cfgs: vec![cfg], ops, mon: Monitors::default(), profile: format!("{}/{}", class, label) }
+            let mon = if rng.chance(1, 4) { Monitors { views: false, iters: true, serde: false, unchanged: false, iter_seed: rng.next_u64() } } else { Monitors::default() };
+            ReadScn { fmt, input, cfgs: vec![cfg], ops, mon, profile: format!("{}/{}", class, label) }
         }
         "C13" | "C19" | "C20" => {
             let fmt = if id == "C20" && rng.chance(2, 3) { Fmt::Fasta } else if rng.chance(1, 2) { Fmt::Fasta } else { Fmt::Fastq };
